@@ -11,7 +11,7 @@ RULE = ('(i) systematic preemption injection (sys.monitoring, context bound 2): 
         'to completion inside the k-th LINE event of A; quick: up to 800 injection points per geometric pair (exhaustive when A has fewer '
         'events, strided with a seed-dependent offset otherwise) and 40 per other pair; thorough: exhaustive for every pair. INSTRUCTION-level '
         'injection inside vec3 / spherical_polygon / spherical_triangle / polyhedral / dodecahedron / pentagon / vec2 / quat code objects '
-        '(strided quick, exhaustive thorough); cold-start schedules: all shared containers rewound to their import-time contents before A, B '
+        '(strided quick, exhaustive thorough); bounded-cache eviction windows (containers that stop growing under 6k-20k distinct calls are filled exactly to capacity with the entries of A as the oldest, B inserts a new entry at every event of A); cold-start schedules: all shared containers rewound to their import-time contents before A, B '
         'injected at every LINE event that only a cold run executes (cache-fill code) plus a stride sample. Verdict: A result and injected B result bit-equal to their single-threaded baselines, no '
         'exception. (ii) real threads: 8 and 16 threads, switch interval 1 us, mixed operations against precomputed expectations. '
         'distinct = distinct (A, B, granularity, event index) executions; non-trivial = injections that actually fired inside a5 code')
@@ -103,6 +103,7 @@ def plan(tier, seed):
     cpairs += [('l2c_mid', 'l2c_mid_alt'), ('l2c_pole', 'l2c_pole_alt'), ('l2c_anti_hi', 'l2c_anti_alt'), ('res0', 'res0'), ('meta', 'children')]
     for i in range(nsc):
         specs.append({'part': 'inject_cold', 'pairs': cpairs[i::nsc], 'cap': 60 if tier == 'quick' else 600})
+    specs.append({'part': 'inject_pressure', 'cap': 400 if tier == 'quick' else 0, 'fill': 6000 if tier == 'quick' else 20000})
     specs.append({'part': 'footprint'})
     return specs
 
@@ -191,6 +192,72 @@ def run_shard(spec, ctx):
             ctx.count('pairs_cold')
         for s in inj.sites:
             ctx.setadd('preemption_sites_cold', s)
+        inj.close()
+    elif spec['part'] == 'inject_pressure':
+        # bounded-cache eviction windows: find shared containers that stop growing under a stream of distinct calls (= bounded
+        # caches), put call A's entries in as the OLDEST ones of a cache filled exactly to capacity, then inject a call B that
+        # inserts a new entry at every LINE event of A (check-then-get races only exist in that state)
+        import copy
+        from rv import gen
+        parents = [gen.random_cell(ctx.rnd, a5, ctx.rnd.randint(8, 20)) for _ in range(max(2, spec['fill'] // 4096 + 1))]
+        fill_cells = []
+        for pc in parents:
+            fill_cells.extend(a5.cell_to_children(pc, a5.get_resolution(pc) + 6))
+        fillers = [(lambda c=c: a5.cell_to_lonlat(c)) for c in fill_cells]
+        rew.rewind()
+        hist = {}
+        for i in range(min(spec['fill'], len(fillers))):
+            fillers[i]()
+            if i % 100 == 99:
+                for path, o in state.containers():
+                    if isinstance(o, dict) and not path.endswith('.__dict__'):
+                        hist.setdefault(id(o), [path, o, []])[2].append(len(o))
+        bounded = []
+        for path, o, lens in hist.values():
+            if len(lens) >= 20 and lens[-1] >= 8 and lens[-1] == lens[-10] and lens[-1] > lens[0]:
+                bounded.append((path, o, lens[-1]))
+        ctx.counters['pressure_fill_calls'] = min(spec['fill'], len(fillers))
+        ctx.counters['containers_watched_under_pressure'] = len(hist)
+        ctx.counters['bounded_caches_found'] = len(bounded)
+        for path, o, cap_ in bounded:
+            ctx.note('bounded cache under pressure: %s capacity %d' % (path, cap_))
+        inj = sched.Injector(a5dir)
+        for path, K, C in bounded[:3]:
+            for an in ('c2l_deep', 'c2l_low', 'c2b_seg', 'l2c_mid'):
+                A = make_call(a5, cat[an])
+                rew.rewind()
+                K.clear()
+                A()
+                j = 0
+                while len(K) < C and j < len(fillers) - 1:
+                    fillers[j]()
+                    j += 1
+                if len(K) != C:
+                    ctx.note('could not fill %s exactly (%d of %d)' % (path, len(K), C))
+                    continue
+                snap = [(o, copy.copy(o)) for _, o in state.containers()]
+
+                def restore():
+                    for o, c0 in snap:
+                        if isinstance(o, list):
+                            o[:] = c0
+                        else:
+                            o.clear()
+                            o.update(c0)
+                Bcell = fill_cells[j]
+                bname = 'filler'
+                cat2 = dict(cat)
+                cat2[bname] = ('cell_to_lonlat', [Bcell])
+                base2 = dict(base)
+                base2[bname] = sched.canon(a5.cell_to_lonlat(Bcell))
+                restore()
+                n = inj.events_in(A, 'line')
+                cap = spec['cap'] and max(spec['cap'], 2500 if n <= 2500 else 1500)
+                ks = range(1, n + 1) if not cap or n <= cap else sorted({int(ctx.rnd.random() * n / cap + i * n / cap) + 1 for i in range(cap)})
+                for k in ks:
+                    restore()
+                    if inject_pair(a5, sched, inj, cat2, an, bname, 'line', k, ctx, base2, cold='pressure:%s' % path):
+                        ctx.count('injections_fired_pressure')
         inj.close()
     elif spec['part'] == 'threads':
         names = sorted(cat)
